@@ -178,17 +178,13 @@ def extrapolate (corr : Corr C P) (sys : List (MolInst C)) (title : String) (box
     let r := loop complete ⟨[], 1, none⟩ sys
     ⟨.openW :: .comment title :: .box box :: (r.1.recs.map .line ++ [.close]), r.2⟩
 
-/-- the `comment` setter of `GroFile` (`if value[-1] == '\n': value = value[:-1]`) followed by what
+/-- the `comment` setter of `GroFile` (`if value.endswith('\n'): value = value[:-1]`) followed by what
     `_setup_write_file` writes as first line (`comment`, then `"\n"` unless it already ends with one).
-    `none` = `IndexError` (`value[-1]` / `comment[-1]` of an empty string). -/
+    Since `fix: GroFile accepts an empty title` this never raises (kept as `Option` for the protocol);
+    an empty title is written as an empty first line. -/
 def writtenTitle (value : List Char) : Option (List Char) :=
-  match value.getLast? with
-  | none => none
-  | some c =>
-    let v := if c == '\n' then value.dropLast else value
-    match v.getLast? with
-    | none => none
-    | some c' => some (if c' == '\n' then v else v ++ ['\n'])
+  let v := if value.getLast? == some '\n' then value.dropLast else value
+  some (if v.getLast? == some '\n' then v else v ++ ['\n'])
 
 /-! ### the specification the theorems compare with -/
 
